@@ -235,4 +235,7 @@ def run(ctx) -> Result:
     res.ok("Q4", "consistent_with:first-ranking", cw.loc(), "evaluated with a decoy second ranking: only ranking[0] read")
     res.not_decided.append("that every optimal consensus respects the ParFront partition (theorem over costs; igraph's "
                            "component order is trusted)")
+    if not res.violations:      # the end-to-end pass adds nothing to an established violation (and may not terminate on it)
+        from . import e2e
+        e2e.check(res, ctx.proj, "C07", ctx.thorough)
     return res
